@@ -1,4 +1,5 @@
 import MageModel.Gen.Flags
+import MageModel.Invoke.Paths
 /-
 `mage.Parse` (mage/main.go:177-310): the front end's flag table, the command selection and the misuse checks;
 `RunCompiled`'s environment for the child (mage/main.go:705-747).
@@ -56,7 +57,7 @@ def envFlag (E : Env) (k : String) : Bool := (parseBool (getenv E k)).getD false
 def envGoCmd (E : Env) : String := if getenv E "MAGEFILE_GOCMD" = "" then "go" else getenv E "MAGEFILE_GOCMD"
 /-- mg.CacheDir (non-Windows) -/
 def envCacheDir (E : Env) : String :=
-  if getenv E "MAGEFILE_CACHE" = "" then getenv E "HOME" ++ "/.magefile" else getenv E "MAGEFILE_CACHE"
+  if getenv E "MAGEFILE_CACHE" = "" then Paths.join (getenv E "HOME") ".magefile" else getenv E "MAGEFILE_CACHE"
 
 /-- mage.Parse; `E` is mage's own environment, `pd` the recorded time.ParseDuration -/
 def frontParse (pd : String → Option Int) (E : Env) (argv : List String) : Parsed :=
